@@ -22,6 +22,7 @@ func (x *FnCtx) step(fr *Frame, st *State, instr ssa.Instruction) {
 		case *types.Struct:
 			r := x.alloc(st.heap, tb.IntC(layoutOf(et).Size))
 			x.zeroStruct(st.heap, r, et)
+			x.zeroGhostFields(st, r)
 			fr.regs[in] = r
 		case *types.Array:
 			n := int64(1)
@@ -475,6 +476,9 @@ func (x *FnCtx) implementers(iface types.Type) []types.Type {
 	it := iface.Underlying().(*types.Interface)
 	var out []types.Type
 	for _, t := range x.eng.allNamedTypes() {
+		if _, isI := t.Underlying().(*types.Interface); isI {
+			continue
+		}
 		if types.Implements(t, it) {
 			out = append(out, t)
 		} else if types.Implements(types.NewPointer(t), it) {
@@ -682,3 +686,21 @@ func (x *FnCtx) appendOp(fr *Frame, st *State, in ssa.Value, args []ssa.Value) V
 }
 
 var _ = big.NewInt
+
+// zeroGhostFields: a freshly allocated object has zero ghost fields.
+func (x *FnCtx) zeroGhostFields(st *State, r *Term) {
+	ec := &EvalCtx{x: x}
+	for _, k := range sortedKeys(x.eng.specs.Ghosts) {
+		g := x.eng.specs.Ghosts[k]
+		if !g.Field {
+			continue
+		}
+		t := ec.typeByName(g.Type)
+		if t == nil {
+			continue
+		}
+		name := "H.$." + g.Name
+		m := x.heapGet(st.heap, name, ArraySort(IntSort, x.sortOf(t)))
+		st.heap.m[name] = x.tb.Store(m, r, x.zeroValue(t).(*Term))
+	}
+}
